@@ -107,6 +107,22 @@ for _pid, _tech, _text in (
 ):
     CHECKS[_pid] = ("model_checking", _tech, _text, _OF_NOTE, "4/" + _pid)
 
+CHECKS["C05"] = ("model_checking",
+                 "TLC-generated construction corpus executed as a four-phase machine (build / encode / decode with siblings / re-encode) on the "
+                 "real types; TLC judge incl. the specification's own encoder applied to the projection of the decoded value",
+                 "For every watched element and every top-level message of the OFGen.tla corpus the harness encodes, decodes (elements through "
+                 "their decoders with a sibling following, messages through Parse), projects both values and re-encodes; TLC requires "
+                 "acceptance, same kind, equal projections, equal re-encoding, Enc(projection of decoded) = bytes, and size = own bytes.",
+                 _OF_NOTE + " Kinds without a decoder are excluded; switch-originated kinds are reached through the C04 corpus.", "4/C05")
+CHECKS["C09"] = ("model_checking",
+                 "TLC enumeration of well-formed packet headers (PktGen.tla: packed groups exhaustively, demux table, IPv6 chains in every order) "
+                 "built, encoded, decoded and re-encoded on the real types; TLC judge against PktWire.tla (RFC layouts) incl. Demux()",
+                 "PktWire.tla states the header layouts from the RFCs and the demultiplexing function; TLC enumerates all 65 536 VLAN tag words, "
+                 "all IPv4 flag/offset words, all fragment words, all version/IHL, DSCP/ECN, TCP offset/flag groups, IPv6 chains, IGMP counts; "
+                 "every header is executed through the real encoder and decoder and judged bit for bit.",
+                 "Trusted: my transcription of the RFC layouts, TLC, Json, the reflective interpreter / projector. DHCP and LLDP not yet covered.",
+                 "4/C09")
+
 NOT_YET = {
 }
 
